@@ -119,6 +119,22 @@ def run(tier, seed):
                     chk.violation("conc:%s:%s" % (f["rule"], f["mix"]), "concurrent %s round under TSan: %s - %s" % (f["mix"], f["rule"], f["detail"]), f)
             cov["streams"]["thread-sanitizer"] = st
             cov["evaluations"] += st["events"]
+    if not quick and (not only or "miri" in only):
+        from kv import sanitize
+        st = {"rounds": 0, "reports": 0}
+        for k, (mix, threads) in enumerate([("list-conservation", 2), ("map-chains", 2), ("list-mixed", 3), ("map-mixed", 2)]):
+            out, ub, note = sanitize.run_miri(["conc-round", mix, threads, 8, seed * 10 + k, 0, 1], arc=True, timeout=1800)
+            if ub:
+                st["reports"] += 1
+                chk.violation("miri:%s" % sha(ub[:400]), "Miri reports undefined behaviour / a data race in a concurrent %s round: %s" % (mix, ub[:300]), {"report": ub})
+            elif out is None:
+                chk.inconclusive.append("a Miri concurrency round did not complete: " + note[:200])
+            else:
+                st["rounds"] += 1
+                for f in out.get("faults", []):
+                    chk.violation("conc:%s:%s" % (f.get("rule"), mix), "concurrent %s round under Miri: %s - %s" % (mix, f.get("rule"), f.get("detail")), f)
+        cov["streams"]["miri-arc"] = st
+        cov["evaluations"] += st["rounds"]
     cov.pop("passenger_observations", None); cov.pop("passenger_src", None)
     cov["rule"] = ("(a) runnable corpus programs (without clocks, random numbers, hashes) and generated programs of four kgen profiles on the rc and the arc worker: identical "
                    "outcome class, stdout, result. (b) rounds of 2 / 3 / 4 / 8 threads x 50-%d single-container operations on one shared list or map, six mixes: list "
